@@ -137,7 +137,11 @@ pub fn cmd_miri(prop: &str, seed: u64, n: u64) {
                 detsim::PASSTHROUGH.store(true, Ordering::SeqCst);
                 crate::driver::MIRI_PLANS.store(true, Ordering::SeqCst);
                 let kfs = crate::driver::known_findings();
+                let t0 = std::time::Instant::now();
                 let found = crate::dfamily::explore(p, s, false, &mut st);
+                if std::env::var("VERIF_MIRI_TIMES").is_ok() {
+                    println!("MIRI-TIME seed {} explore {:?}", s, t0.elapsed());
+                }
                 for r in &found {
                     if r.property != p {
                         continue;
